@@ -1,0 +1,41 @@
+//go:build verif
+
+package bits
+
+// Property C17: 0xFF-run coding of SEI payload type and payload size (ITU-T H.264 7.3.2.3.1 sei_message: ff_byte repeated
+// while the remaining value is >= 255, then last_payload_*_byte).
+// ffShape(d, p, n): the n >= 1 payload bytes at p are n-1 bytes 0xFF followed by one byte below 0xFF (so the run is
+// self-delimiting: n-1 is the index of the first byte other than 0xFF, which is where the parser's loop stops).
+// The value carried is 255*(n-1) + last byte. For the writer that equation is the existing, proven loop invariant
+//   val0 - val == 255*uint(plen - old(plen))          (bits/verif_contracts.go, WriteSEIValue loop 1)
+// taken at loop exit (val < 255 is then written as the last byte), but the postcondition
+//   val0 == 255*uint(n-1) + uint(pay[old(plen)+n-1])   with n = plen - old(plen)
+// is NOT discharged: z3/cvc5 time out on relating 255*(plen'-p0-1) to 255*(plen-p0) for plen' = plen + (w.n+8)/8, w.n = 0
+// (two 64-bit multiplications with equal, but not syntactically equal, arguments inside a query with quantifiers). Variants tried:
+// v/255 and v%255 (division), (k<<8)-k, a recursive sum ff255(k) (solver diverges), the rearranged form v-last+255 == 255*n.
+// What IS proved below: the shape, the low 8 bits of the value equation, and that earlier payload bytes are untouched.
+//@ pred ffShape(d [1099511627776]byte, p int, n int) = n >= 1 && (forall j int :: 0 <= j && j < n-1 ==> d[p+j] == 255) && d[p+n-1] < 255
+
+//@ func (*EBSPWriter).WriteSEIValue
+//@   uses C13
+//@   ensures[C17] w.err == nil ==> ffShape(ghost(w.wr).pay, old(ghost(w.wr).plen), ghost(w.wr).plen - old(ghost(w.wr).plen))
+//@   ensures[C17] w.err == nil ==> ghost(w.wr).pay[ghost(w.wr).plen-1] == uint8(val0 - 255*uint(ghost(w.wr).plen - 1 - old(ghost(w.wr).plen)))
+//@   ensures[C17] w.err == nil ==> forall i int :: 0 <= i && i < old(ghost(w.wr).plen) ==> ghost(w.wr).pay[i] == old(ghost(w.wr).pay[i])
+//@   loop 1 invariant w.err == nil ==> forall i int :: 0 <= i && i < old(ghost(w.wr).plen) ==> ghost(w.wr).pay[i] == old(ghost(w.wr).pay[i])
+
+// Payload bytes of a message: read back from the decoded (emulation-prevention removed) payload stream, byte aligned.
+// rpay[0:rplen) is what the standard's EBSP decoder recovers from the raw bytes consumed so far, so this says that
+// ReadBytes returns exactly the next n payload bytes, whatever escapes the raw stream contains.
+//@ func (*EBSPReader).ReadBytes
+//@   uses C13
+//@   ensures[C17] r.err == nil && old(r.err) == nil && old(erInv(r)) && old(r.n) == 0 ==> erInv(r) && r.n == 0 && ghost(r.rd).rplen == old(ghost(r.rd).rplen) + n
+//@   ensures[C17] r.err == nil && old(r.err) == nil && old(erInv(r)) && old(r.n) == 0 ==> forall j int :: 0 <= j && j < n ==> result[j] == ghost(r.rd).rpay[old(ghost(r.rd).rplen)+j]
+//@   ensures[C17] r.err == nil && old(r.err) == nil && old(erInv(r)) && old(r.n) == 0 ==> forall i int :: 0 <= i && i < old(ghost(r.rd).rplen) ==> ghost(r.rd).rpay[i] == old(ghost(r.rd).rpay[i])
+//@   loop 1 invariant r.err == nil && old(erInv(r)) && old(r.n) == 0 ==> forall k int :: 0 <= k && k < old(ghost(r.rd).rplen) ==> ghost(r.rd).rpay[k] == old(ghost(r.rd).rpay[k])
+//@   loop 1 invariant r.err == nil && old(erInv(r)) && old(r.n) == 0 ==> erInv(r) && r.n == 0 && r.v == 0 && ghost(r.rd).rplen == old(ghost(r.rd).rplen) + i
+//@   loop 1 invariant r.err == nil && old(erInv(r)) && old(r.n) == 0 ==> forall j int :: 0 <= j && j < i ==> payload[j] == ghost(r.rd).rpay[old(ghost(r.rd).rplen)+j]
+
+// Frame of the EBSP bit reader (checked): in particular no caller-visible byte slice is written, so bytes already
+// collected by ReadBytes survive the following Read calls.
+//@ func (*EBSPReader).Read
+//@   assigns r.v, r.n, r.err, r.pos, r.zeroCount, ghost(r.rd).rpos, ghost(r.rd).rz, ghost(r.rd).rpay, ghost(r.rd).rplen
